@@ -174,7 +174,7 @@ func checkC19(c *Ctx) {
 	for _, eol := range []string{"\n", "\r\n"} {
 		for depth := 0; depth <= 3; depth++ {
 			for pad := 0; pad <= 5; pad++ {
-				for _, wrap := range []string{"plain", "if", "foreach", "let", "param"} {
+				for _, wrap := range []string{"plain", "if", "foreach", "let", "param", "call-value-params", "call-content-params"} {
 					for bi, bad := range bads {
 						if !c.Mine() {
 							continue
@@ -191,6 +191,20 @@ func checkC19(c *Ctx) {
 						}
 						var ok []int // acceptable lines
 						switch wrap {
+						case "call-value-params", "call-content-params":
+							// the failing callee is reached through a call whose params sit on their own lines:
+							// the error belongs to the line of the {call} tag.
+							if depth == 0 {
+								continue
+							}
+							lines = append(lines, "{call r.lib.d1}")
+							ok = []int{len(lines)}
+							if wrap == "call-value-params" {
+								lines = append(lines, "  {param u: $u /}", "  {param n: $n /}")
+							} else {
+								lines = append(lines, "  {param "+map[bool]string{true: "n", false: "u"}[strings.Contains(bad, "$u")]+"}", "    text", "    {$n ?: ''}", "    more text", "  {/param}")
+							}
+							lines = append(lines, "{/call}")
 						case "plain":
 							lines = append(lines, inner)
 							ok = []int{len(lines)}
